@@ -41,7 +41,7 @@ _b = z3.Const("a!base", Bytes)
 _g = z3.Const("a!g", Bytes)
 _l0, _i, _j = z3.Ints("a!l0 a!i a!j")
 
-REG.axiom(z3.ForAll([_a, _b, _g, _l0], L1K(_a, _b, _g, _l0, 31) == _b, patterns=[L1K(_a, _b, _g, _l0, 31)]), "L1K top")
+REG.axiom(z3.ForAll([_a, _b, _g, _l0], L1K(_a, _b, _g, _l0, 31) == _b, patterns=[L1K(_a, _b, _g, _l0, 31)]), "L1K top", symbols=["L1K"])
 REG.axiom(
     z3.ForAll(
         [_a, _b, _g, _l0, _i],
@@ -52,6 +52,7 @@ REG.axiom(
         patterns=[L1K(_a, _b, _g, _l0, _i)],
     ),
     "L1K step",
+    symbols=["L1K"],
 )
 REG.axiom(
     z3.ForAll(
@@ -60,6 +61,7 @@ REG.axiom(
         patterns=[L2K(_a, _b, _g, _l0, _i, 31)],
     ),
     "L2K top",
+    symbols=["L2K"],
 )
 REG.axiom(
     z3.ForAll(
@@ -71,15 +73,9 @@ REG.axiom(
         patterns=[L2K(_a, _b, _g, _l0, _i, _j)],
     ),
     "L2K step",
+    symbols=["L2K"],
 )
-# lengths of KDF outputs
-_k, _l, _c, _r = z3.Consts("a!k a!l a!c a!r", Bytes)
-_x, _y, _z, _n = z3.Ints("a!x a!y a!z a!n")
-REG.axiom(z3.ForAll([_a, _k, _l, _c, _n], blen(KDFG(_a, _k, _l, _c, _n)) == _n, patterns=[KDFG(_a, _k, _l, _c, _n)]), "len KDFG")
-REG.axiom(
-    z3.ForAll([_a, _k, _l, _g, _x, _y, _z, _r, _n], blen(KDFK(_a, _k, _l, _g, _x, _y, _z, _r, _n)) == _n, patterns=[KDFK(_a, _k, _l, _g, _x, _y, _z, _r, _n)]),
-    "len KDFK",
-)
+# (lengths of KDF outputs are asserted where the terms are created: externs.kbkdf_derive, c_gkdi.kdf)
 
 
 def in32(x):
@@ -101,8 +97,9 @@ from pyvc.smt import Str, str_lit  # noqa: E402
 
 _s = z3.Const("a!s", Str)
 _cid = z3.Int("a!codec")
-REG.axiom(z3.ForAll([_s], z3.And(STRLEN(_s) >= 0, (STRLEN(_s) == 0) == (_s == str_lit(""))), patterns=[STRLEN(_s)]), "len(s) == 0 iff s == ''")
+REG.axiom(z3.ForAll([_s], z3.And(STRLEN(_s) >= 0, (STRLEN(_s) == 0) == (_s == str_lit(""))), patterns=[STRLEN(_s)]), "len(s) == 0 iff s == ''", symbols=["STRLEN"])
 REG.axiom(
     z3.ForAll([_cid, _s], z3.And(blen(ENC(_cid, _s)) >= STRLEN(_s), (blen(ENC(_cid, _s)) == 0) == (STRLEN(_s) == 0)), patterns=[ENC(_cid, _s)]),
     "an encoding (utf-8 / utf-16-le) has at least one byte per character and is empty iff the text is empty",
+    symbols=["ENC"],
 )
